@@ -27,6 +27,7 @@ from .rseval import Struct, Enum, NONE, Some, Ok, Uninterp
 
 FILES = ["src/raft/filestore/raftlog/mod.rs", "src/raft/filestore/log.rs", "src/raft/filestore/model.rs", "src/common/protobuf_utils.rs"]
 INTERVAL_OFFSET = 4 + 2 + 8 + 8 + 2  # magic, version, last_term, first_index, data_area_index
+BOUNDARY = list(range(5, 26))  # preallocation boundary, bytes into the data area (three records of 1-2 payload bytes occupy 15-24 bytes)
 
 
 def setup(prog):
@@ -38,8 +39,48 @@ def setup(prog):
     return it, fs
 
 
-class Crash(Exception):
-    pass
+def concretize_ops(ops, model):
+    def c(v):
+        if isinstance(v, dict):
+            return {k: c(x) for k, x in v.items()}
+        if isinstance(v, (list, tuple)):
+            return [c(x) for x in v]
+        if isinstance(v, (bool, int, str)) or v is None:
+            return v
+        if isinstance(v, z3.ExprRef):
+            return model.eval(v, model_completion=True).as_long()
+        return str(v)
+    return c(ops)
+
+
+def native_validate(obligations, seed, n_samples=6):
+    """translator validation: sampled discharged paths (one model each) are executed on the real LogInnerManager; write results,
+    visible entries and the file bytes must be what the encoding computed"""
+    import random
+    from lib import native
+    rnd = random.Random(seed)
+    hist = []
+    for ob in obligations:
+        okp, rng = ob.pop("_ok_paths", ([], []))
+        if ob.get("verdict") != "discharged" or not okp:
+            continue
+        s = z3.Solver()
+        s.add(*rng)
+        for pc, ops in rnd.sample(okp, min(n_samples, len(okp))):
+            s.push()
+            s.add(*pc)
+            if s.check() == z3.sat:
+                hist.append({"obligation": ob["harness"], "ops": concretize_ops(ops, s.model())})
+            s.pop()
+    if not hist:
+        return None
+    exe, berr = native.build()
+    if exe is None:
+        return {"outcome": "error", "message": "native build failed: " + berr[-300:], "n": len(hist)}
+    path = native.write_replay("C03", "c03", "validate", [], {"engine": "smt", "mode": "validate", "histories": hist})
+    rr = native.run_replay(exe, path)
+    m = [l for l in rr.get("output", "").splitlines() if "VERIF-VALIDATE-MISMATCH" in l]
+    return {"outcome": rr["outcome"], "message": (m[0][:400] if m else rr["message"]), "n": len(hist), "path": path}
 
 
 def pick(it, var, options):
@@ -47,126 +88,6 @@ def pick(it, var, options):
         if it.branch(var == k):
             return o
     return options[-1]
-
-
-def scenario(prog, mode, n_app, n_re, stats):
-    it, fs = setup(prog)
-    init_fn = prog.methods[("LogInnerManager", "init")]
-    lens = [z3.BitVec("len%d" % i, 8) for i in range(n_app + n_re)]
-    payload = [[z3.BitVec("b%d_%d" % (i, j), 64) for j in range(2)] for i in range(n_app + n_re)]
-    cutv, nrev, reopenv, crashv, wrongv = z3.BitVec("cut", 8), z3.BitVec("n_reappend", 8), z3.Bool("reopen"), z3.BitVec("crash_after", 8), z3.Bool("wrong_index_append")
-    rng = [z3.ULT(b, 256) for row in payload for b in row]
-    covers = stats.setdefault("covers", {})
-
-    def cover(name):
-        covers[name] = covers.get(name, 0) + 1
-
-    def open_log():
-        r = it._invoke(init_fn, ["log", 0, 0, 0], self_ty="LogInnerManager")
-        if not (isinstance(r, Enum) and r.variant == "Ok"):
-            return None
-        return r.payload[0]
-
-    def mk_rec(i, index, term):
-        ln = pick(it, lens[i], [1, 2])
-        return Struct("LogRecordDto", {"index": index, "term": term, "value": payload[i][:ln]}), ln
-
-    def read_all(m, upto):
-        r = it.call_method("LogInnerManager", "read_records", m, [0, upto])
-        if not (isinstance(r, Enum) and r.variant == "Ok"):
-            return None
-        return r.payload[0]
-
-    def thunk():
-        fs.files.clear()
-        fs.mutations = 0
-        m = open_log()
-        if m is None:
-            return ("violation", "a fresh log file cannot be initialised", [], "init")
-        # the format carries the index interval: 2 instead of 128 (see module docstring)
-        fs.files["log"][INTERVAL_OFFSET:INTERVAL_OFFSET + 2] = [0, 2]
-        m = open_log()
-        base_mut = fs.mutations
-        crash_at = None
-        if mode == "crash":
-            crash_at = "pending"
-        log = []
-        ref = []  # acknowledged entries: (index, term, payload bytes)
-        # ---- appends
-        snapshots = []  # (mutations count after an acknowledged step, copy of ref)
-        images = [(fs.mutations, {k: list(v) for k, v in fs.files.items()}, list(ref))]
-
-        def do_write(recd, term):
-            before = fs.mutations
-            r = it.call_method("LogInnerManager", "write", m_box[0], [recd])
-            ok = isinstance(r, Enum) and r.variant == "Ok" and isinstance(r.payload[0], Enum) and r.payload[0].variant in ("Success", "SuccessToEnd")
-            return ok, (r.payload[0].variant if isinstance(r, Enum) and r.variant == "Ok" and isinstance(r.payload[0], Enum) else "Err")
-        m_box = [m]
-        for i in range(n_app):
-            if mode == "append" and i == 1 and it.branch(wrongv):
-                bad, _l = mk_rec(i, len(ref) + 1, 9)
-                ok, kind = do_write(bad, 9)
-                log.append(("append-wrong-index", kind))
-                if ok or kind != "IndexEqualError":
-                    return ("violation", "an append with a non-contiguous index is not refused", log, "wrong-index-accepted")
-                cover("wrong index refused")
-            recd, ln = mk_rec(i, len(ref), 1)
-            ok, kind = do_write(recd, 1)
-            log.append(("append", len(ref), "len=%d" % ln, kind))
-            if not ok:
-                return ("violation", "a contiguous append is refused (%s)" % kind, log, "append-refused")
-            ref.append((len(ref), 1, recd["value"]))
-            images.append((fs.mutations, None, list(ref)))
-        # ---- truncation + re-append
-        if mode in ("strip", "crash"):
-            k = pick(it, cutv, list(range(n_app + 1)))
-            r = it.call_method("LogInnerManager", "strip_log_to", m_box[0], [k])
-            log.append(("delete-from", k))
-            if not (isinstance(r, Enum) and r.variant == "Ok"):
-                return ("violation", "delete-from fails", log, "strip-error")
-            ref = ref[:k]
-            if k % 2 == 0 and 0 < k < n_app:
-                cover("cut exactly on an index entry")
-            if k < n_app - 1 and (k // 2) < ((n_app - 1) // 2):
-                cover("cut across an index entry")
-            images.append((fs.mutations, None, list(ref)))
-            nre = pick(it, nrev, list(range(n_re + 1)))
-            for j in range(nre):
-                recd, ln = mk_rec(n_app + j, len(ref), 2)
-                ok, kind = do_write(recd, 2)
-                log.append(("re-append", len(ref), "len=%d" % ln, kind))
-                if not ok:
-                    return ("violation", "the append at the cut index is refused after a delete-from (%s)" % kind, log, "append-after-strip-refused")
-                ref.append((len(ref), 2, recd["value"]))
-                images.append((fs.mutations, None, list(ref)))
-        total_mut = fs.mutations
-        # ---- crash point: re-run is not needed, the file model keeps every mutation; rebuild the image of a prefix
-        if mode == "crash":
-            return ("crash-eval", (total_mut, base_mut), log, images)
-        # ---- observe (same handle or after reopen)
-        reopened = it.branch(reopenv)
-        mm = m_box[0]
-        if reopened:
-            mm = open_log()
-            log.append(("reopen",))
-            if mm is None:
-                return ("violation", "the log does not reopen", log, "reopen-fails")
-            cover("reopened")
-        return ("observe", mm, log, ref)
-    it.solver.push()
-    it.solver.add(*rng)
-    paths = it.explore(thunk, max_paths=100000)
-    it.solver.pop()
-    stats["paths"] += len(paths)
-    stats["queries"] += it.queries
-    stats["opaque"] = sorted(it.opaque_seen)
-    return it, fs, paths, rng, (lens, payload)
-
-
-def check_observation(it, prog, paths, rng, stats):
-    """for 'observe' results: compare the log's answers with the reference list (needs evaluation of read_records on each path:
-    done inside a second exploration pass to keep the first pass cheap)"""
-    return None
 
 
 def run_mode(prog, mode, n_app, n_re, name, bound, timer):
@@ -195,6 +116,7 @@ def run_mode(prog, mode, n_app, n_re, name, bound, timer):
             covers[c] = covers.get(c, 0) + 1
 
         startv = z3.BitVec("first_index_of_file", 8)
+        boundv = z3.BitVec("preallocation_boundary", 8)
         st_box = [0]
 
         def open_log():
@@ -207,10 +129,17 @@ def run_mode(prog, mode, n_app, n_re, name, bound, timer):
             ln = pick(it, lens[i], [1, 2])
             return Struct("LogRecordDto", {"index": st_box[0] + index, "term": term, "value": payload[i][:ln]}), ln
 
-        def write(m, recd):
+        ops_box = [[]]
+
+        def write(m, recd, expect="ok", what=None):
             r = it.call_method("LogInnerManager", "write", m, [recd])
             kind = r.payload[0].variant if isinstance(r, Enum) and r.variant == "Ok" and isinstance(r.payload[0], Enum) else "Err"
+            ops_box[0].append({"op": "write", "index": recd["index"], "term": recd["term"], "value": list(recd["value"]), "expect": expect,
+                               "model_kind": kind, "what": what or "a contiguous append is refused"})
             return kind in ("Success", "SuccessToEnd"), kind
+
+        def entries(ref):
+            return [[st_box[0] + i, t, list(v)] for (i, t, v) in ref]
 
         def possible(cond):
             if isinstance(cond, bool):
@@ -223,8 +152,10 @@ def run_mode(prog, mode, n_app, n_re, name, bound, timer):
                 return True
             return False
 
-        def compare(m, ref, log, what):
+        def compare(m, ref, log, what, record=True):
             """the log's view (end index, last term, entries) against the reference list"""
+            if record:
+                ops_box[0].append({"op": "expect", "what": what, "candidates": [entries(ref)]})
             end = it.call_method("LogInnerManager", "get_end_index", m, []) - st_box[0]
             if end != len(ref):
                 return ("violation", "%s: the log reports end index %s, %d entries are acknowledged and not removed" % (what, end, len(ref)), log,
@@ -250,6 +181,10 @@ def run_mode(prog, mode, n_app, n_re, name, bound, timer):
             return None
 
         def thunk():
+            r = thunk_inner()
+            return (r, list(ops_box[0]))
+
+        def thunk_inner():
             fs.files.clear()
             fs.mutations = 0
             # the file's first index: 0, or 1 (not a multiple of the index interval: a file created after a snapshot / rollover)
@@ -262,6 +197,19 @@ def run_mode(prog, mode, n_app, n_re, name, bound, timer):
             if m is None:
                 return ("violation", "the log does not reopen after initialisation", [], "init")
             log = [("first-index", st_box[0])]
+            ops = ops_box[0] = [{"op": "open", "first": st_box[0]}, {"op": "patch_interval", "offset": INTERVAL_OFFSET, "value": 2}]
+            if mode == "append":
+                # the file's preallocated length is what init finds on disk; place the preallocation boundary t bytes into the data
+                # area so that records end before / exactly on / across it (at the real scale: 1 MiB steps)
+                t = pick(it, boundv, [None] + BOUNDARY)
+                if t is not None:
+                    del fs.files["log"][4096 + t:]
+                    ops.append({"op": "set_len", "len": 4096 + t})
+                    log.append(("preallocated-length", 4096 + t))
+                    m = open_log()
+                    if m is None:
+                        return ("violation", "the log does not reopen after initialisation", log, "init")
+                    cover("preallocation boundary inside the scenario")
             ref = []
             base_image = {k: list(v) for k, v in fs.files.items()}
             fs.journal = [] if mode == "crash" else None
@@ -270,7 +218,7 @@ def run_mode(prog, mode, n_app, n_re, name, bound, timer):
             for i in range(n_app):
                 if mode == "append" and i == 1 and it.branch(wrongv):
                     bad, _l = mk_rec(i, len(ref) + 1, 9)
-                    ok, kind = write(m, bad)
+                    ok, kind = write(m, bad, expect="refused")
                     log.append(("append-wrong-index", kind))
                     if ok or kind != "IndexEqualError":
                         return ("violation", "an append with a non-contiguous index is not refused (%s)" % kind, log, "wrong-index-accepted")
@@ -286,6 +234,7 @@ def run_mode(prog, mode, n_app, n_re, name, bound, timer):
             if mode in ("strip", "crash"):
                 k = pick(it, cutv, list(range(n_app + 1)))
                 r = it.call_method("LogInnerManager", "strip_log_to", m, [st_box[0] + k])
+                ops.append({"op": "strip", "index": st_box[0] + k})
                 log.append(("delete-from", k))
                 if not (isinstance(r, Enum) and r.variant == "Ok"):
                     return ("violation", "delete-from fails", log, "strip-error")
@@ -302,7 +251,7 @@ def run_mode(prog, mode, n_app, n_re, name, bound, timer):
                 nre = pick(it, nrev, list(range(n_re + 1)))
                 for j in range(nre):
                     recd, ln = mk_rec(n_app + j, len(ref), 2)
-                    ok, kind = write(m, recd)
+                    ok, kind = write(m, recd, what="the append at the cut index is refused after a delete-from")
                     log.append(("re-append", len(ref), "len=%d" % ln, kind))
                     if not ok:
                         return ("violation", "the append at the cut index is refused after a delete-from (%s)" % kind, log, "append-after-strip-refused")
@@ -315,8 +264,10 @@ def run_mode(prog, mode, n_app, n_re, name, bound, timer):
                 journal = fs.journal
                 fs.journal = None
                 p = pick(it, crashv, list(range(len(journal) + 1)))
+                ops.append({"op": "model_file", "bytes": list(fs.files["log"])})
                 fs.files.clear()
                 fs.files.update(iomodel.replay_journal(base_image, journal, p))
+                ops.append({"op": "load_image", "bytes": list(fs.files["log"])})
                 mm = open_log()
                 log.append(("crash-after-mutation", p, "of", len(journal)))
                 if mm is None:
@@ -328,13 +279,16 @@ def run_mode(prog, mode, n_app, n_re, name, bound, timer):
                 cands = [done[-1][1]] + ([nxt[0][1]] if nxt else [])
                 if nxt and p > done[-1][0]:
                     cover("crash inside an operation")
-                results = [compare(mm, c, list(log), "after a crash behind file mutation %d" % p) for c in cands]
+                ops.append({"op": "expect", "what": "after a crash behind file mutation %d" % p, "candidates": [entries(c) for c in cands]})
+                results = [compare(mm, c, list(log), "after a crash behind file mutation %d" % p, record=False) for c in cands]
                 if all(r is not None for r in results):
-                    return results[0]
-                return ("ok", None, log, None)
+                    return results[0] + (list(ops),)
+                return ("ok", None, log, None, list(ops))
             mm = m
             if it.branch(reopenv):
+                ops.append({"op": "model_file", "bytes": list(fs.files["log"])})
                 mm = open_log()
+                ops.append({"op": "reopen"})
                 log.append(("reopen",))
                 if mm is None:
                     return ("violation", "the log does not reopen", log, "reopen-fails")
@@ -342,7 +296,7 @@ def run_mode(prog, mode, n_app, n_re, name, bound, timer):
             bad = compare(mm, ref, log, "after reopen" if mm is not m else "same handle")
             if bad:
                 return bad
-            return ("ok", None, log, None)
+            return ("ok", None, log, None, list(ops))
         it.solver.push()
         it.solver.add(*rng)
         t1 = time.time()
@@ -352,28 +306,34 @@ def run_mode(prog, mode, n_app, n_re, name, bound, timer):
         s = z3.Solver()
         s.add(*rng)
         viol = None
-        for pc, r, exc in paths:
+        ok_paths = []
+        for pc, rr, exc in paths:
             if exc is not None:
-                viol = {"message": "panic in the log file code: %s" % exc, "tags": ["panic"], "model": {}}
+                viol = {"message": "panic in the log file code: %s" % exc, "tags": ["panic"], "model": {}, "ops": None}
                 break
+            r, ops = rr
             if r[0] == "violation":
                 s.push()
                 s.add(*pc)
                 if s.check() == z3.sat:
                     m_ = s.model()
                     viol = {"message": r[1], "tags": [r[3]], "model": {"history": [list(map(str, e)) for e in r[2]],
-                            "payload_bytes": [[(b if isinstance(b, int) else m_.eval(b, model_completion=True).as_long()) for b in row] for row in payload]}}
+                            "payload_bytes": [[(b if isinstance(b, int) else m_.eval(b, model_completion=True).as_long()) for b in row] for row in payload]},
+                            "ops": concretize_ops(ops, m_)}
                 s.pop()
                 if viol:
                     break
+            elif r[0] == "ok":
+                ok_paths.append((pc, ops))
+        ob["_ok_paths"] = (ok_paths, rng)
         ob["queries"] = it.queries
         ob["solver_s"] = round(time.time() - t1, 1)
         ob["sample"] = {"paths_explored": len(paths), "covers": covers, "opaque_symbols": sorted(it.opaque_seen)[:20]}
-        need = {"append": ["wrong index refused", "reopened"], "strip": ["cut exactly on an index entry", "cut removes an index entry", "re-append after a cut", "reopened"],
+        need = {"append": ["wrong index refused", "reopened", "preallocation boundary inside the scenario"], "strip": ["cut exactly on an index entry", "cut removes an index entry", "re-append after a cut", "reopened"],
                 "crash": ["crash image reopened", "crash inside an operation"]}[mode]
         missing = [c for c in need if not covers.get(c)]
         if viol:
-            ob.update({"verdict": "violation", "message": viol["message"], "tags": viol["tags"], "counterexample": viol["model"]})
+            ob.update({"verdict": "violation", "message": viol["message"], "tags": viol["tags"], "counterexample": viol["model"], "_ops": viol.get("ops")})
         elif missing:
             ob.update({"verdict": "inconclusive", "message": "reachability witness never reached: %s" % missing})
         else:
@@ -402,12 +362,40 @@ def run(tier, seed, which="C03"):
         obligations.append(run_mode(prog, "crash", n_app, 1, "s04_1_crash_points",
                                     "%d appends, delete from k, 0-1 re-append; a crash after every prefix of the file mutations (write / set_len calls, also inside an operation), then reopen; index interval 2" % n_app, None))
     from lib import native
+    import os
+    if os.environ.get("VERIF_NO_NATIVE"):
+        # development self-test against a scratch copy of the sources (VERIF_REPO): the native build is of /repo, skip it
+        for ob in obligations:
+            ob.pop("_ops", None)
+            ob.pop("_ok_paths", None)
+        info["wall_s"] = round(time.time() - t0, 1)
+        return {"obligations": obligations, "info": info}
     for ob in obligations:
         if ob.get("verdict") == "violation":
-            path = native.write_replay(which, "c03", "model", [], {"engine": "smt", "mode": "model-only", "obligation": ob["harness"], "message": ob["message"],
-                                                                   "model": ob.get("counterexample")})
+            ops = ob.pop("_ops", None)
+            ob.pop("_ok_paths", None)
+            path = native.write_replay(which, "c03", "history", [], {"engine": "smt", "mode": "violation", "obligation": ob["harness"], "message": ob["message"],
+                                                                     "model": ob.get("counterexample"), "histories": [{"ops": ops}] if ops else []})
             ob["replay_path"] = path
-            ob["replay"] = {"path": path, "outcome": "model-only", "message": "operation history for LogInnerManager with the index interval patched to 2"}
+            exe, berr = native.build()
+            if exe is None or not ops:
+                ob.update({"verdict": "inconclusive", "message": "counterexample (%s) could not be replayed natively: %s" % (ob["message"], "no operation list" if exe else "native build failed")})
+                continue
+            rr = native.run_replay(exe, path)
+            ob["replay"] = {"path": path, "outcome": rr["outcome"], "message": rr["message"]}
+            if rr["outcome"] != "reproduced":
+                ob.update({"verdict": "inconclusive", "message": "engine-S counterexample (%s) did not reproduce on the real LogInnerManager (%s %s)" % (ob["message"], rr["outcome"], rr["message"])})
+            else:
+                ob["message"] = "%s [real code: %s]" % (ob["message"], rr["message"][:300])
+    val = native_validate(obligations, seed, 6 if tier == "quick" else 24)
+    for ob in obligations:
+        ob.pop("_ok_paths", None)
+        ob.pop("_ops", None)
+    if val is not None:
+        info["translator_validation"] = val
+        if val["outcome"] != "passed":
+            obligations.append({"engine": "smt", "harness": "s03_translator_validation", "verdict": "inconclusive", "queries": 0, "solver_s": 0,
+                                "message": "the real LogInnerManager and the encoding disagree on a sampled history: %s" % val["message"]})
     info["wall_s"] = round(time.time() - t0, 1)
     return {"obligations": obligations, "info": info}
 
